@@ -135,14 +135,26 @@ SET_METHODS = {"intersection": ast.BitAnd, "union": ast.BitOr, "difference": ast
 
 def normalise(tree):
     """Spellings with one meaning, rewritten in place to the one the analyses read (positions kept):
-    `x.sum(0)` / `np.sum(x, 0)` -> `axis=0`; `np.copy(X)` -> `X.copy()`; `np.zeros([a, b])` -> `np.zeros((a, b))`; `s.intersection(t)` / `.union` / `.difference`
+    `x.sum(0)` / `np.sum(x, 0)` -> `axis=0`; `np.copy(X)` -> `X.copy()`; `np.zeros([a, b])` -> `np.zeros((a, b))`; `list()` -> `[]`, `dict()` -> `{}`; `sorted(list(x))` / `list(sorted(x))` -> `sorted(x)`; `s.intersection(t)` / `.union` / `.difference`
     -> `s & t` / `|` / `-` when s is a call of a node-set helper or set(...)."""
     nps = {(al.asname or al.name) for n in tree.body if isinstance(n, ast.Import) for al in n.names if al.name == "numpy"}
+
+    rebound = {x.id for x in ast.walk(tree) if isinstance(x, ast.Name) and isinstance(x.ctx, ast.Store)} | {a.arg for x in ast.walk(tree) if isinstance(x, ast.arguments)
+                                                                                                          for a in x.args + x.kwonlyargs + x.posonlyargs}
 
     class N(ast.NodeTransformer):
         def visit_Call(self, node):
             self.generic_visit(node)
             f = node.func
+            if isinstance(f, ast.Name) and f.id in ("list", "dict") and f.id not in rebound and not node.args and not node.keywords:
+                return ast.copy_location(ast.List(elts=[], ctx=ast.Load()) if f.id == "list" else ast.Dict(keys=[], values=[]), node)      # list() is [], dict() is {}
+            plain = lambda c, names: isinstance(c, ast.Call) and isinstance(c.func, ast.Name) and c.func.id in names and c.func.id not in rebound and len(c.args) == 1 and \
+                not isinstance(c.args[0], ast.Starred)
+            if plain(node, ("sorted",)) and plain(node.args[0], ("list", "tuple")) and not node.args[0].keywords:
+                node.args = [node.args[0].args[0]]            # sorted(list(x)) is sorted(x)
+                return node
+            if plain(node, ("list",)) and not node.keywords and plain(node.args[0], ("sorted",)):
+                return node.args[0]                           # list(sorted(x)) is sorted(x)
             if not isinstance(f, ast.Attribute):
                 return node
             is_np = isinstance(f.value, ast.Name) and f.value.id in nps
